@@ -6,7 +6,9 @@ import re
 import time
 
 ROOT = os.path.dirname(os.path.dirname(os.path.abspath(__file__)))
-EVIDENCE_DIR = os.path.join(ROOT, "evidence")
+# FV_EVIDENCE_DIR: runs against a deliberately changed tree (tools/seedtest.py, tools/seed_official.sh) must not
+# overwrite the evidence of the unchanged tree
+EVIDENCE_DIR = os.environ.get("FV_EVIDENCE_DIR") or os.path.join(ROOT, "evidence")
 REPLAY_DIR = os.path.join(ROOT, "replays")
 FINDINGS_FILE = os.path.join(ROOT, "known_findings.json")
 
